@@ -26,7 +26,9 @@ SCENARIOS = {
     7: "client FIN at offset 0 right after the handshake, origin answers and closes",
     8: "client sends megabytes then FIN while the origin starts reading late with a small buffer (back-pressure before the FIN)",
     9: "origin sends megabytes then FIN while the client starts reading late with a small buffer (back-pressure before the FIN)",
+    10: "origin FIN first, client then keeps sending a little every 0.5 s for longer than the idle period, then FIN",
 }
+IDLE = 3   # timeouts.idle of the proxies in this monitor: only a tunnel silent in BOTH directions for that long may be reaped
 
 
 class C04Origins:
@@ -80,7 +82,7 @@ class C04Origins:
                     w.write(post)
                     await w.drain()
                     rec["events"].append("post-sent")
-                elif scen in (2, 9):
+                elif scen in (2, 9, 10):
                     w.write(s2c)
                     await w.drain()
                     w.write_eof()
@@ -253,6 +255,44 @@ async def scenario(out, chain, origins, seed, uid, lk, ck, scen, io_name, n_c2s,
                                   {"who": who, "origin_received": len(rec["c2s"]), "expected": len(c2s) + P_AFTER})
                 elif not obs["origin_saw_eof"]:
                     out.violation("origin does not observe end-of-stream after both directions ended [%s]" % io_name, {"who": who})
+        elif scen == 10:
+            conn.write(c2s)
+            await conn.drain()
+            end = await read_to_eof()
+            rec = await origin_rec()
+            if rec is None:
+                out.violation("origin never saw the tunnel: " + who, {"scenario": scen})
+                return None
+            obs["client_bytes_before_eof_ok"] = bytes(got) == want_s2c and end == "eof"
+            # the origin's direction is finished and silent from now on; ours goes on for IDLE + 1.5 s
+            sent_after = bytearray()
+            broke = None
+            t0 = now()
+            k = 0
+            while now() - t0 < IDLE + 1.5:
+                piece = post_c2s[(k * 97) % (P_AFTER - 97):][:97]
+                try:
+                    conn.write(piece)
+                    await conn.drain()
+                    sent_after += piece
+                except (ConnectionError, OSError) as e:
+                    broke = type(e).__name__
+                    break
+                k += 1
+                await asyncio.sleep(0.5)
+            t_fin = now()
+            conn.eof()
+            for _ in range(int(WATCHDOG * 100)):
+                if rec["closed_t"]:
+                    break
+                await asyncio.sleep(0.01)
+            obs["origin_got_everything_sent_after_its_fin"] = bytes(rec["c2s"]) == c2s + bytes(sent_after) and broke is None
+            obs["origin_saw_eof"] = rec["eof_t"] is not None and rec["eof_t"] - max(t_fin, rec.get("last_t", 0)) <= B_CLOSE
+            if not obs["origin_got_everything_sent_after_its_fin"]:
+                out.violation("opposite direction stopped after a half-close (c2s still active for longer than the idle period after the origin's FIN) [%s]" % io_name,
+                              {"who": who, "origin_received": len(rec["c2s"]), "expected": len(c2s) + len(sent_after), "client_write_error": broke, "idle_period_s": IDLE})
+            elif not obs["origin_saw_eof"]:
+                out.violation("origin does not observe end-of-stream after both directions ended [%s]" % io_name, {"who": who})
         elif scen == 3:
             conn.write(c2s)
             await conn.drain()
@@ -366,11 +406,11 @@ async def check_history(out, chain, io_name, expected):
         states = [s["state"] for s in h["state"]]
         if states[-1] not in ("Terminated", "ErrorOccured"):
             out.violation("finished tunnel has no terminal state [%s]" % io_name, {"states": states, "scenario": SCENARIOS[scen]})
-        if scen in (1, 2, 3, 7) and states[-1] == "Terminated":
+        if scen in (1, 2, 3, 7, 8, 9, 10) and states[-1] == "Terminated":
             if "ClientShutdown" not in states or "ServerShutdown" not in states:
                 out.violation("cleanly finished tunnel lacks the per-direction shutdown states [%s]" % io_name, {"states": states, "scenario": SCENARIOS[scen]})
             else:
-                first = "ClientShutdown" if scen in (1, 7, 8) else "ServerShutdown" if scen in (2, 9) else None
+                first = "ClientShutdown" if scen in (1, 7, 8) else "ServerShutdown" if scen in (2, 9, 10) else None
                 if first and states.index(first) > states.index("ServerShutdown" if first == "ClientShutdown" else "ClientShutdown"):
                     out.violation("shutdown states recorded in the wrong order [%s]" % io_name, {"states": states, "scenario": SCENARIOS[scen]})
         out.count("history_records_checked")
@@ -395,9 +435,9 @@ async def main(args):
     plan = []
     uid = args.seed * 1_000_000
     for lk, ck in pairs:
-        scens = [1, 2, 3, 4, 5, 6, 7, 8, 9] if args.thorough else rng.sample([1, 2, 3, 4, 5, 6, 7, 8, 9], 4)
+        scens = [1, 2, 3, 4, 5, 6, 7, 8, 9, 10] if args.thorough else rng.sample([1, 2, 3, 4, 5, 6, 7, 8, 9, 10], 4)
         for sc in scens:
-            if lk in TLS_LISTENERS and sc in (1, 3, 7, 8):
+            if lk in TLS_LISTENERS and sc in (1, 3, 7, 8, 10):
                 continue  # the python TLS client can not half-close
             uid += 1
             n = rng.choice([HLEN, HLEN + 1, 5000, 200_000])
@@ -408,10 +448,12 @@ async def main(args):
                 n, m = 6 << 20, rng.choice([0, 5000])
             if sc == 9:
                 n, m = rng.choice([HLEN, 5000]), 6 << 20
+            if sc == 10:
+                n, m = rng.choice([HLEN, 5000]), rng.choice([1, 5000])
             plan.append((uid, lk, ck, sc, n, m))
     results = {}
     for io_name, io in modes:
-        chain = Chain(args.bin, io=io, tag="c04").build()
+        chain = Chain(args.bin, io=io, tag="c04", timeouts={"idle": IDLE, "udp": IDLE}).build()
         origins = None
         try:
             await chain.start()
